@@ -56,6 +56,10 @@ for d in sorted(glob.glob("/tmp/seed-out/C??/[ab]")):
         "caught": bool(caught),
         "caught_by": sorted(set(o for r in caught for o in r["failed_obligations"])),
     }
+    try:  # keep the hand-written note of an earlier collection
+        meta["note"] = json.load(open(os.path.join(dst, "meta.json")))["note"]
+    except Exception:
+        pass
     json.dump(meta, open(os.path.join(dst, "meta.json"), "w"), indent=1)
     rows.append(meta)
 json.dump([{k: r[k] for k in ("id", "property", "caught", "caught_by")} for r in rows], open(os.path.join(OUT, "SUMMARY.json"), "w"), indent=1)
